@@ -838,6 +838,16 @@ func TestVerifC01(t *testing.T) {
 		emitHist("fasthotstuff", 4, res.hist.spec, res, "script-fhs-vote-then-stale-report")
 	}
 	{
+		res, err := c01FastVoteAfterTimeout(7)
+		if err != nil {
+			t.Fatalf("world: %v", err)
+		}
+		if len(res.commits["r2n0"]) < 2 {
+			v.Oracle(false, "harness:fhs-vote-after-timeout-script-fork-does-not-commit", fmt.Sprintf("replica 2 committed %v", res.commits["r2n0"]), nil)
+		}
+		emitHist("fasthotstuff", 4, res.hist.spec, res, "script-fhs-vote-after-timeout")
+	}
+	{
 		res, err := c01FastSwappedReports(7)
 		if err != nil {
 			t.Fatalf("world: %v", err)
@@ -1342,6 +1352,215 @@ func c01FastVoteThenStaleReport(seed int64) (*c01Result, error) {
 			fp, fq = nb, qcOf(nb)
 		}
 		timeouts()
+	}
+	return c01Finish(h, live, 0), nil
+}
+
+// c01FastVoteAfterTimeout (Fast-HotStuff): a replica that has signed a timeout for a view must not vote
+// in that view any more. Replicas 2 and 3 give up on view 3 (reporting QC(b1)) before the leader's late
+// b3 arrives; if replica 2 still votes for b3, b3 is certified, replica 1 commits b2 on b4, and the
+// aggregate QC of the two honest timeouts (highest report QC(b1)) justifies the fork b4' on b1 that
+// replicas 2 and 3 commit.
+func c01FastVoteAfterTimeout(seed int64) (*c01Result, error) {
+	spec := wSpec{consensus: "fasthotstuff", n: 4, byz: []hotstuff.ID{4}, seed: seed}
+	for i := 0; i < 20; i++ {
+		spec.leaders = append(spec.leaders, 4)
+	}
+	w, err := newWorld(spec)
+	if err != nil {
+		return nil, err
+	}
+	h := newC01Hist(w, spec)
+	B := w.nodes[NodeID{ReplicaID: 4}]
+	var live []*wNode
+	for _, id := range w.order {
+		if nd := w.nodes[id]; !nd.byz {
+			live = append(live, nd)
+		}
+	}
+	for _, id := range w.order {
+		w.partition[id] = 0
+	}
+	flush := func() {
+		for guard := 0; len(w.pending) > 0 && guard < 20000; guard++ {
+			m := w.pending[0]
+			w.pending = w.pending[1:]
+			to := w.nodes[m.to]
+			if to.byz {
+				w.byzHandle(to, m.payload)
+				h.observe(nil)
+				continue
+			}
+			if p, ok := m.payload.(hotstuff.ProposeMsg); ok {
+				w.regProposal(&p)
+			}
+			to.eventLoop.AddEvent(m.payload)
+			w.drain(to)
+			h.observe(to)
+		}
+	}
+	timeouts := func() {
+		for _, nd := range live {
+			nd.eventLoop.AddEvent(hotstuff.TimeoutEvent{View: nd.viewStates.View()})
+			w.drain(nd)
+			h.observe(nd)
+		}
+		flush()
+	}
+	mkBatch := func(k int) *clientpb.Batch {
+		return &clientpb.Batch{Commands: []*clientpb.Command{{ClientID: 99, SequenceNumber: uint64(k), Data: []byte("byz")}}}
+	}
+	propose := func(view hotstuff.View, parent hotstuff.Hash, qc hotstuff.QuorumCert, agg *hotstuff.AggregateQC) (*hotstuff.Block, bool) {
+		b := hotstuff.NewBlock(parent, qc, mkBatch(int(view)+100), view, 4)
+		p := hotstuff.ProposeMsg{ID: 4, Block: b, AggregateQC: agg}
+		w.regProposal(&p)
+		B.blockchain.Store(b)
+		for _, to := range live {
+			w.byzSendTo(B, to, p)
+		}
+		flush()
+		if pc, err := B.auth.CreatePartialCert(b); err == nil {
+			B.votesSeen[b.Hash()] = append(B.votesSeen[b.Hash()], pc)
+		}
+		w.byzAssemble(B)
+		h.observe(nil)
+		for _, q := range w.qcs {
+			if q.BlockHash() == b.Hash() {
+				return b, true
+			}
+		}
+		return b, false
+	}
+	qcOf := func(b *hotstuff.Block) hotstuff.QuorumCert {
+		for _, q := range w.qcs {
+			if q.BlockHash() == b.Hash() {
+				return q
+			}
+		}
+		return hotstuff.QuorumCert{}
+	}
+	gen := hotstuff.GetGenesis()
+	genQC := B.viewStates.HighQC()
+	w.learnQC(genQC)
+	_ = propose
+	h1, h2, h3 := w.nodes[NodeID{ReplicaID: 1}], w.nodes[NodeID{ReplicaID: 2}], w.nodes[NodeID{ReplicaID: 3}]
+	proposeTo := func(view hotstuff.View, parent hotstuff.Hash, qc hotstuff.QuorumCert, agg *hotstuff.AggregateQC, tos ...*wNode) (*hotstuff.Block, bool) {
+		b := hotstuff.NewBlock(parent, qc, mkBatch(int(view)+100+10*len(tos)), view, 4)
+		p := hotstuff.ProposeMsg{ID: 4, Block: b, AggregateQC: agg}
+		w.regProposal(&p)
+		B.blockchain.Store(b)
+		for _, to := range tos {
+			w.byzSendTo(B, to, p)
+		}
+		flush()
+		if pc, err := B.auth.CreatePartialCert(b); err == nil {
+			B.votesSeen[b.Hash()] = append(B.votesSeen[b.Hash()], pc)
+		}
+		w.byzAssemble(B)
+		h.observe(nil)
+		for _, q := range w.qcs {
+			if q.BlockHash() == b.Hash() {
+				return b, true
+			}
+		}
+		return b, false
+	}
+	// the Byzantine replica's own, correctly self-signed timeout for a view, reporting an old QC
+	byzTimeout := func(view hotstuff.View, qc hotstuff.QuorumCert) (hotstuff.TimeoutMsg, bool) {
+		vs, err := B.auth.Sign(view.ToBytes())
+		if err != nil {
+			return hotstuff.TimeoutMsg{}, false
+		}
+		m := hotstuff.TimeoutMsg{ID: 4, View: view, SyncInfo: hotstuff.NewSyncInfoWith(qc), ViewSignature: vs}
+		ms, err := B.auth.Sign(m.ToBytes())
+		if err != nil {
+			return hotstuff.TimeoutMsg{}, false
+		}
+		m.MsgSignature = ms
+		w.regTimeout(m)
+		h.observe(nil)
+		return m, true
+	}
+	// partial timeouts: only the given replicas give up on their current view (their timeout messages
+	// reach everybody, but fewer than a quorum of them form no certificate)
+	timeoutAt := func(nds ...*wNode) {
+		for _, nd := range nds {
+			nd.eventLoop.AddEvent(hotstuff.TimeoutEvent{View: nd.viewStates.View()})
+			w.drain(nd)
+			h.observe(nd)
+		}
+		flush()
+	}
+	// the Byzantine leader walks replicas into the next view with an aggregate QC built from the
+	// timeouts it has seen for that view plus its own
+	walk := func(view hotstuff.View, report hotstuff.QuorumCert, pick []hotstuff.ID, tos ...*wNode) (*hotstuff.AggregateQC, bool) {
+		bt, okt := byzTimeout(view, report)
+		if !okt {
+			return nil, false
+		}
+		var picked []hotstuff.TimeoutMsg
+		for _, id := range pick {
+			for _, t := range w.timeoutsSeen[view] {
+				if t.ID == id {
+					picked = append(picked, t)
+					break
+				}
+			}
+		}
+		if len(picked) != len(pick) {
+			return nil, false
+		}
+		agg, err := B.auth.CreateAggregateQC(view, append(picked, bt))
+		if err != nil {
+			return nil, false
+		}
+		w.learnAgg(agg)
+		for _, to := range tos {
+			w.byzSendTo(B, to, hotstuff.NewViewMsg{ID: 4, SyncInfo: hotstuff.NewSyncInfoWith(agg), FromNetwork: true})
+		}
+		flush()
+		return &agg, true
+	}
+	// views 1, 2: b1, b2 for everybody; every view ends by timeout everywhere
+	b1, ok := proposeTo(1, gen.Hash(), genQC, nil, h1, h2, h3)
+	if !ok {
+		return c01Finish(h, live, 0), nil
+	}
+	timeouts()
+	b2, ok := proposeTo(2, b1.Hash(), qcOf(b1), nil, h1, h2, h3)
+	if !ok {
+		return c01Finish(h, live, 0), nil
+	}
+	timeouts()
+	// view 3: the leader withholds b3 until replicas 2 and 3 have given up on the view (their timeouts
+	// report QC(b1)); two timeouts form no certificate, so everybody is still in view 3 when b3 arrives
+	// at replicas 1 and 2. Replica 2 has signed a timeout for view 3 and must not vote in it any more.
+	timeoutAt(h2, h3)
+	b3, ok3 := proposeTo(3, b2.Hash(), qcOf(b2), nil, h1, h2)
+	// replica 1 gives up on view 3 as well; the leader walks everybody into view 4 with the aggregate QC
+	// of replicas 2 and 3 and its own report of QC(b1)
+	timeoutAt(h1)
+	agg3, okw := walk(3, qcOf(b1), []hotstuff.ID{2, 3}, h1, h2, h3)
+	if !okw {
+		return c01Finish(h, live, 0), nil
+	}
+	// view 4: if b3 was certified, b4 (plain QC(b3)) for replica 1, which commits b1 and b2
+	if ok3 {
+		proposeTo(4, b3.Hash(), qcOf(b3), nil, h1)
+	}
+	// and the fork b4' below b2, on b1, justified by the aggregate QC, for replicas 2 and 3
+	f4, okf := proposeTo(4, b1.Hash(), qcOf(b1), agg3, h2, h3)
+	fp, fq := f4, qcOf(f4)
+	for v := hotstuff.View(5); v <= 7 && okf; v++ {
+		timeoutAt(h2, h3)
+		if _, okw := walk(v-1, fq, []hotstuff.ID{2, 3}, h2, h3); !okw {
+			break
+		}
+		var nb *hotstuff.Block
+		nb, okf = proposeTo(v, fp.Hash(), fq, nil, h2, h3)
+		if okf {
+			fp, fq = nb, qcOf(nb)
+		}
 	}
 	return c01Finish(h, live, 0), nil
 }
